@@ -2,10 +2,11 @@
      expand ;; <deep 0|1> ;; <dump e>
          -> "<dump of expand(e, deep)> ;; <hash>"  |  EXN:<k>  |  FUEL  |  LIBM  |  UNMODELLED ...
      xflags ;; <dump e>                       -> four flags: expanded poly_frag xpoly_frag canonical
+     xguard ;; <deep 0|1> ;; <dump e>         -> 1 | 0: the hypothesis expand_guard of the C09 theorems
      multinomial ;; <m> ;; <n>                -> "k1,k2,..,km:c k1,..:c ..." (map order)  |  EXN:<k>
      subs ;; <kind> ;; <cache 0|1> ;; <dump e> ;; <dump k1> ;; <dump v1> ;; ...
          kind in xreplace subs msubs ssubs     -> "<dump of the result> ;; <hash>"  |  EXN:<k> ...
-     sflags ;; <dump e> ;; <dump k1> ;; <dump v1> ;; ...   -> two flags: occurs_any keys_consistent
+     sflags ;; <dump e> ;; <dump k1> ;; <dump v1> ;; ...   -> three flags: occurs_any keys_consistent single_pow_key
    Dumps are the text of harness/dump.h; results are printed in the same syntax (Add dictionaries in the
    model's order: the checks sort them on both sides). *)
 open Semodel
@@ -111,6 +112,8 @@ let () =
         | "xflags" :: d :: _ ->
             let e = expr_of_string d in
             print_endline (b (expanded e) ^ b (poly_frag e) ^ b (xpoly_frag e) ^ b (canonical e))
+        | "xguard" :: deep :: d :: _ ->
+            print_endline (b (expand_guard (deep = "1") (expr_of_string d)))
         | "multinomial" :: m :: n :: _ ->
             (match multinomial_coefficients (n_of_dec m) (n_of_dec n) with
              | Ok r ->
@@ -125,7 +128,7 @@ let () =
         | "sflags" :: d :: kv ->
             let sd = mk_dict (pairs_of kv) in
             let e = expr_of_string d in
-            print_endline (b (occurs_any sd e) ^ b (keys_consistent sd e))
+            print_endline (b (occurs_any sd e) ^ b (keys_consistent sd e) ^ b (single_pow_key sd))
         | _ -> print_endline "FAIL bad line"
       with
       | Unsupported m -> print_endline ("UNSUPPORTED " ^ m)
